@@ -3,6 +3,7 @@ CONSTANTS
  MaxOps = 4
  MaxSupers = 2
  Thin = 1
+ WithMeth = TRUE
  EmitFrom = 0
 INIT Init
 NEXT Next
